@@ -25,7 +25,7 @@ REAL_VS_STUB = {'real': ['kyupy.circuit: GrowingList, IndexList, Node, Line, Cir
                 'stub': ['none (RefGraph is the reference model, not a replacement)']}
 ASSUMPTIONS = ['trailing unconnected pin slots (None at the end of a pin list) are not part of the compared state: a restore legitimately drops them',
                'substitute is checked by the invariants after the step and the model is re-synchronised from the real object (its rewiring is too rich to predict; its function preservation is C10)']
-EXPECTED_PROBES = ['hole_filled_by_last', 'restore_mid_history', 'copy_mid_history', 'duplicate_name_rejected', 'explicit_pin', 'fork_squeeze', 'eliminate_spliced', 'eliminate_kept_undriven', 'substitute_done', 'substitute_ignored_input']
+EXPECTED_PROBES = ['shared_name', 'hole_filled_by_last', 'restore_mid_history', 'copy_mid_history', 'duplicate_name_rejected', 'explicit_pin', 'fork_squeeze', 'eliminate_spliced', 'eliminate_kept_undriven', 'substitute_done', 'substitute_ignored_input']
 
 KINDS = ['and', 'or', 'nand', 'not', 'buf', 'xor', 'dff', 'latch', 'input', 'output', 'AOI21', 'mux21', 'DFFX1', '__const0__']
 OPS = ['node', 'node', 'node', 'fork', 'line', 'line', 'line', 'line', 'linex', 'linex', 'rmline', 'rmline', 'rmnode', 'gof', 'io', 'ioset', 'elim', 'subst', 'copy', 'restore', 'dup']
@@ -99,6 +99,11 @@ class Exec:
             self.names += 1
             nk = '__fork__' if kind == 'fork' else KINDS[a % len(KINDS)]
             name = f'n{self.names}'
+            if b % 5 == 0:      # a fork and a cell may share a name (separate name spaces; both parsers produce this)
+                other = [kk for kk in keys if kk[1] != (nk == '__fork__') and (kk[0], nk == '__fork__') not in m.nodes and '~' not in kk[0]]
+                if other:
+                    name = other[cc % len(other)][0]
+                    res.probe('shared_name')
             Node(c, name, nk)
             m.add_node(name, nk)
             did = f'Node({name},{nk})'
